@@ -449,6 +449,16 @@ func (s *Server) verifyVotes(cd *commonData, votes []SingleVote, asig []byte, st
 		if staData[addr] == true {
 			continue
 		}
+		if validator == nil {
+			continue
+		}
+		// only online members of the voting kind are entitled to vote (the live vote path admits no others:
+		// message judger, sortition manager, look-back stake info); the signer is looked up by index here.
+		if validator.Kind() != kind || !validator.IsOnline() {
+			logging.Error("VerifyHeader UconValidators: vote of a member not entitled to vote ignored.", "Round", cd.round, "RoundIndex", cd.roundIndex,
+				"addr", addr.String(), "kind", validator.Kind(), "status", validator.Status)
+			continue
+		}
 
 		//verify sortition
 		vrfpk, err := secp256k1VRF.NewVRFVerifier(pubKey)
